@@ -17,6 +17,41 @@ structure CCRel (sqrtO : α → α) (g : GConvergenceCheckerSrc α) (m : GConver
   t : g.t = toGV ⟨n, m.c.t⟩
   e : g.e = m.e
 
+/-! ### the oracle hypotheses -/
+
+/-- the compensated sum of squares of a list of entries: what `Norm2` takes the root of.  Every squared delta of the
+    model is one: `(cv.update t).dsq = sqSum (subEntries t cv.t)` and `v.sumSq = sqSum v.entries`, by definition. -/
+def sqSum (es : List (Entry α)) : α := kbnSum (es.map fun e => mul e.val e.val)
+
+theorem update_dsq_eq_sqSum (cv : ConvChecker α) (t : List (Entry α)) :
+    (cv.update t).dsq = sqSum (subEntries t cv.t) := rfl
+
+theorem sumSq_eq_sqSum (v : Vec α) : v.sumSq = sqSum v.entries := rfl
+
+/-- The stand-ins `sqrtO`, `nanO`, `infO` for `math.Sqrt`, `math.IsNaN`, `math.IsInf` agree with the model ON EVERY
+    COMPENSATED SUM OF SQUARES `x = sqSum es`, for the epsilon `e` of the run:
+    * `nf`: the Go finiteness test on `sqrt x` is the model's `nonFinite x`;
+    * `sq`: `sqrt x ≤ e` is the model's `sqrtLe x e`.
+
+    Why restricted to sums of squares: quantified over EVERY scalar `x` the first fact is false of the real float
+    functions, and then every theorem assuming it is vacuous for the intended instance.  The square root of a negative
+    FINITE number is NaN: `math.IsNaN(math.Sqrt(-1))` is true while `nonFinite (-1)` is false.  Together with `sq`
+    (at the floats `sqrtLe x e` is `sqrt x ≤ e`, so `sqrtO (-1)` and `sqrtO NaN` are both NaN) no choice of oracles
+    satisfies `nf` both at `x = -1` and at `x = NaN`.  The checker only ever takes roots of (Kahan–Babuška–Neumaier
+    compensated) sums of squares of an entry list; on those `nf` says "a sum of squares is never a negative finite
+    number", which is what the floats deliver, and at the floats with `sqrtO := Float.sqrt` the fact `sq` holds by
+    `rfl`.  Likewise `sq` is asked at the run's epsilon only (the exact instances model `sqrtLe x e` as `x ≤ e·e`,
+    which is the comparison of the root only for `e ≥ 0`; `Compute` refuses `e ≤ 0`). -/
+structure OracleOK (sqrtO : α → α) (nanO infO : α → Bool) (e : α) : Prop where
+  nf : ∀ es : List (Entry α), (nanO (sqrtO (sqSum es)) || infO (sqrtO (sqSum es))) = nonFinite (sqSum es)
+  sq : ∀ es : List (Entry α), Scalar.le (sqrtO (sqSum es)) e = Scalar.sqrtLe (sqSum es) e
+
+/-- the hypotheses quantified over every scalar (unsatisfiable at the floats, see `OracleOK`) are stronger. -/
+theorem OracleOK.of_forall {sqrtO : α → α} {nanO infO : α → Bool}
+    (hnf : ∀ x : α, (nanO (sqrtO x) || infO (sqrtO x)) = nonFinite x)
+    (hsq : ∀ x e : α, Scalar.le (sqrtO x) e = Scalar.sqrtLe x e) (e : α) : OracleOK sqrtO nanO infO e :=
+  ⟨fun _ => hnf _, fun _ => hsq _ e⟩
+
 /-! ### Vector.Norm2 -/
 
 theorem goIdx_mid' {β : Type} (l : List β) (i : Int) (pre : List β) (r : β) (rest : List β)
@@ -102,13 +137,17 @@ theorem Vector_SubVec_ok (capO : Nat → Int) (fuel : Nat) (w : GVector α) (v1 
   · rw [h1, ← h2.2]
   · rw [h2.1, hd]
 
-/-- `Update`: under the oracle hypothesis "the Go finiteness test on sqrt x is the model's `nonFinite x`", one Update of
-    the source checker on a vector of the same dimension does what the extern does: same error decision; on success the
-    relation is re-established, the iteration counter advances and `g'.d = sqrtO (new squared delta)`; on a non-finite
-    delta both leave their checker unchanged. Fuel bounds the SubVec merge loop. -/
+/-- `Update`: under the oracle hypothesis "the Go finiteness test on sqrt x is the model's `nonFinite x`" AT THE ONE
+    VALUE MET — `x = (m.c.update t.entries).dsq`, the model's new squared delta, i.e. the compensated sum of squares
+    `sqSum (subEntries t.entries m.c.t)` of the difference to the previously checked vector (`OracleOK.nf` provides
+    it) — one Update of the source checker on a vector of the same dimension does what the extern does: same error
+    decision; on success the relation is re-established, the iteration counter advances and
+    `g'.d = sqrtO (new squared delta)`; on a non-finite delta both leave their checker unchanged.
+    Fuel bounds the SubVec merge loop. -/
 theorem ConvergenceChecker_Update_src_simulates (capO : Nat → Int) (fuel : Nat) (sqrtO : α → α) (nanO infO : α → Bool)
-    (hnf : ∀ x : α, (nanO (sqrtO x) || infO (sqrtO x)) = nonFinite x)
     (g : GConvergenceCheckerSrc α) (m : GConvergenceChecker α) (n : Nat) (t : Vec α)
+    (hnf : (nanO (sqrtO (m.c.update t.entries).dsq) || infO (sqrtO (m.c.update t.entries).dsq)) =
+      nonFinite (m.c.update t.entries).dsq)
     (hrel : CCRel sqrtO g m n) (hdim : t.dim = n) (hf : t.entries.length + m.c.t.length ≤ fuel) :
     ∃ st g' stm m' err,
       Gen.ConvergenceChecker_Update_src capO fuel sqrtO nanO infO g (toGV t) = .ok (st, err) ∧ st.c = g' ∧
@@ -116,6 +155,9 @@ theorem ConvergenceChecker_Update_src_simulates (capO : Nat → Int) (fuel : Nat
       CCRel sqrtO g' m' n ∧
       (err = none → g'.d = sqrtO m'.c.dsq ∧ g'.iter = g.iter + 1) ∧
       (err ≠ none → g' = g ∧ m' = m) := by
+  have hnf' : (nanO (sqrtO (Vec.sumSq (⟨t.dim, subEntries t.entries m.c.t⟩ : Vec α))) ||
+      infO (sqrtO (Vec.sumSq (⟨t.dim, subEntries t.entries m.c.t⟩ : Vec α)))) =
+      nonFinite (Vec.sumSq (⟨t.dim, subEntries t.entries m.c.t⟩ : Vec α)) := hnf
   obtain ⟨gi, gt, gd, ge⟩ := g
   obtain ⟨ht, he⟩ := hrel
   simp only at ht he
@@ -135,7 +177,7 @@ theorem ConvergenceChecker_Update_src_simulates (capO : Nat → Int) (fuel : Nat
       { iter := gi, t := toGV ⟨n, m.c.t⟩, d := gd, e := m.e }, ⟨m⟩, m,
       some ⟨"trust vector delta is not finite (%v)"⟩, ?_, rfl, ?_, rfl, ⟨rfl, rfl⟩, ?_, ?_⟩
     · simp [ConvergenceChecker_Update_src, ConvergenceChecker_Update_src.body, Stm.run, Stm.seq, Stm.set, Stm.ite,
-        Stm.skip, Stm.ret, pure, Except.pure, bind, Except.bind, hs1, hn, hnf, hfin]
+        Stm.skip, Stm.ret, pure, Except.pure, bind, Except.bind, hs1, hn, hnf', hfin]
     · simp [ConvergenceChecker_Update, ConvChecker.update, hfin']
     · intro h; cases h
     · intro _; exact ⟨rfl, rfl⟩
@@ -149,18 +191,68 @@ theorem ConvergenceChecker_Update_src_simulates (capO : Nat → Int) (fuel : Nat
       ⟨{ m with c := m.c.update t.entries }⟩, { m with c := m.c.update t.entries },
       none, ?_, rfl, ?_, rfl, ⟨?_, rfl⟩, ?_, ?_⟩
     · simp [ConvergenceChecker_Update_src, ConvergenceChecker_Update_src.body, Stm.run, Stm.seq, Stm.set, Stm.ite,
-        Stm.skip, Stm.ret, pure, Except.pure, bind, Except.bind, hs1, hn, hnf, hfin, ha1]
+        Stm.skip, Stm.ret, pure, Except.pure, bind, Except.bind, hs1, hn, hnf', hfin, ha1]
     · simp [ConvergenceChecker_Update, ConvChecker.update, hfin']
     · simp only [ha2, ConvChecker.update]; exact htt
     · intro _; exact ⟨rfl, rfl⟩
     · intro h; exact absurd rfl h
 
+/-- `Update` when the Go finiteness test passes: no error; the checker now holds the vector, the same epsilon, and
+    the ROOT of the model's new squared delta.  (The source side of `ConvergenceChecker_Update_src_simulates` alone, the Go test
+    given by its outcome: what the refinement of `Compute_src` uses.) -/
+theorem Update_src_fin (capO : Nat → Int) (fuel : Nat) (sqrtO : α → α) (nanO infO : α → Bool)
+    (g : GConvergenceCheckerSrc α) (cv : ConvChecker α) (e : α) (n : Nat) (t : List (Entry α))
+    (hgt : g.t = toGV ⟨n, cv.t⟩) (hge : g.e = e) (hf : t.length + cv.t.length ≤ fuel)
+    (hx : (nanO (sqrtO (cv.update t).dsq) || infO (sqrtO (cv.update t).dsq)) = false) :
+    ∃ ru, Gen.ConvergenceChecker_Update_src capO fuel sqrtO nanO infO g (toGV ⟨n, t⟩) = .ok ru ∧ ru.2 = none ∧
+      ru.1.c.t = toGV ⟨n, t⟩ ∧ ru.1.c.e = e ∧ ru.1.c.d = sqrtO (cv.update t).dsq := by
+  obtain ⟨gi, gt, gd, ge⟩ := g
+  simp only at hgt hge
+  subst hgt hge
+  obtain ⟨ss, hs1, hs2⟩ := Vector_SubVec_ok capO fuel ({ Dim := 0, Entries := [] } : GVector α) ⟨n, t⟩ ⟨n, cv.t⟩
+    rfl hf
+  simp only at hs2
+  obtain ⟨sn, hn⟩ := Vector_Norm2_src_ok sqrtO (⟨n, subEntries t cv.t⟩ : Vec α)
+  obtain ⟨sa, ha1, ha2⟩ := Vector_Assign_ok (toGV (⟨n, cv.t⟩ : Vec α)) ⟨n, t⟩
+  rw [← hs2] at hn
+  have hx' : (nanO (sqrtO (Vec.sumSq (⟨n, subEntries t cv.t⟩ : Vec α))) ||
+      infO (sqrtO (Vec.sumSq (⟨n, subEntries t cv.t⟩ : Vec α)))) = false := hx
+  refine ⟨(⟨{ iter := gi + 1, t := sa.v, d := sqrtO (Vec.sumSq (⟨n, subEntries t cv.t⟩ : Vec α)), e := ge },
+      toGV ⟨n, t⟩, ss.v, none, sqrtO (Vec.sumSq (⟨n, subEntries t cv.t⟩ : Vec α))⟩, none), ?_, rfl, ha2, rfl, rfl⟩
+  simp [ConvergenceChecker_Update_src, ConvergenceChecker_Update_src.body, Stm.run, Stm.seq, Stm.set, Stm.ite,
+    Stm.skip, Stm.ret, pure, Except.pure, bind, Except.bind, hs1, hn, hx', ha1]
+
+/-- `Update` when the Go finiteness test fails: an error. -/
+theorem Update_src_nonfin (capO : Nat → Int) (fuel : Nat) (sqrtO : α → α) (nanO infO : α → Bool)
+    (g : GConvergenceCheckerSrc α) (cv : ConvChecker α) (n : Nat) (t : List (Entry α))
+    (hgt : g.t = toGV ⟨n, cv.t⟩) (hf : t.length + cv.t.length ≤ fuel)
+    (hx : (nanO (sqrtO (cv.update t).dsq) || infO (sqrtO (cv.update t).dsq)) = true) :
+    ∃ ru msg, Gen.ConvergenceChecker_Update_src capO fuel sqrtO nanO infO g (toGV ⟨n, t⟩) = .ok ru ∧
+      ru.2 = some msg := by
+  obtain ⟨gi, gt, gd, ge⟩ := g
+  simp only at hgt
+  subst hgt
+  obtain ⟨ss, hs1, hs2⟩ := Vector_SubVec_ok capO fuel ({ Dim := 0, Entries := [] } : GVector α) ⟨n, t⟩ ⟨n, cv.t⟩
+    rfl hf
+  simp only at hs2
+  obtain ⟨sn, hn⟩ := Vector_Norm2_src_ok sqrtO (⟨n, subEntries t cv.t⟩ : Vec α)
+  rw [← hs2] at hn
+  have hx' : (nanO (sqrtO (Vec.sumSq (⟨n, subEntries t cv.t⟩ : Vec α))) ||
+      infO (sqrtO (Vec.sumSq (⟨n, subEntries t cv.t⟩ : Vec α)))) = true := hx
+  refine ⟨(⟨{ iter := gi, t := toGV ⟨n, cv.t⟩, d := gd, e := ge },
+      toGV ⟨n, t⟩, ss.v, none, sqrtO (Vec.sumSq (⟨n, subEntries t cv.t⟩ : Vec α))⟩,
+      some ⟨"trust vector delta is not finite (%v)"⟩), _, ?_, rfl⟩
+  simp [ConvergenceChecker_Update_src, ConvergenceChecker_Update_src.body, Stm.run, Stm.seq, Stm.set, Stm.ite,
+    Stm.skip, Stm.ret, pure, Except.pure, bind, Except.bind, hs1, hn, hx']
+
 /-! ### Converged, Delta -/
 
-/-- `Converged`: under "sqrt x ≤ e ⟺ the model's sqrtLe x e" the two verdicts coincide. -/
+/-- `Converged`: under "sqrt x ≤ e ⟺ the model's sqrtLe x e" at the one value met — `x = m.c.dsq`, the squared delta
+    the extern holds (after an `Update` a compensated sum of squares: `OracleOK.sq` provides the fact), and the
+    checker's epsilon — the two verdicts coincide. -/
 theorem ConvergenceChecker_Converged_src_agrees (sqrtO : α → α) (g : GConvergenceCheckerSrc α)
     (m : GConvergenceChecker α) (he : g.e = m.e) (hd : g.d = sqrtO m.c.dsq)
-    (hsq : ∀ x : α, Scalar.le (sqrtO x) m.e = Scalar.sqrtLe x m.e) :
+    (hsq : Scalar.le (sqrtO m.c.dsq) m.e = Scalar.sqrtLe m.c.dsq m.e) :
     (Gen.ConvergenceChecker_Converged_src g).map (fun r => r.2) =
       (Gen.ConvergenceChecker_Converged m).map (fun r => r.2) := by
   simp [ConvergenceChecker_Converged_src, ConvergenceChecker_Converged_src.body, ConvergenceChecker_Converged,
